@@ -173,6 +173,9 @@ type Task struct {
 	work chan func()
 	wake chan struct{}
 
+	// NoHook tasks pass through armed hook sites (used for the harness's own probe requests)
+	NoHook bool
+
 	// guarded by r.mu
 	busy     bool
 	parkedAt string
@@ -321,7 +324,7 @@ func (r *Run) Hook(site string) {
 		return
 	}
 	t := r.byGID[gid()]
-	if t == nil {
+	if t == nil || t.NoHook {
 		r.mu.Unlock()
 		return
 	}
